@@ -21,7 +21,11 @@ RULE = ('row skeleton (exhaustive): renamed / same-name deprecation x same / dif
         'the deprecated default are skipped (unconstrained by the statement). Non-trivial = a deprecated predecessor '
         'actually influences the row (override under the old name, or OR-ing with a different old default); distinct = distinct configuration. '
         'Extra rows (renamed, differing defaults, flag on/off, main file / policy directory): the old-name override is a textually DIFFERENT spelling of the deprecated default (redundant parentheses, keyword case, whitespace, `@` for the empty string and back, commuted operands, double negation) - an arbitrary override by the statement, so it governs, also after a phase-2 rewrite. '
-        'In about a third of all cases a predecessor enforcer with its own files and (mostly) the opposite enforce_new_defaults is first built from the SAME RuleDefault / DeprecatedRule objects, loaded and asked once; the enforcer under test is then built from those objects and judged by the unchanged table, with the top-level shape of the new defaults forced to or / and / not / leaf in turn.')
+        'In about a third of all cases a predecessor enforcer with its own files and (mostly) the opposite enforce_new_defaults is first built from the SAME RuleDefault / DeprecatedRule objects, loaded and asked once; the enforcer under test is then built from those objects and judged by the unchanged table, with the top-level shape of the new defaults forced to or / and / not / leaf in turn. '
+        'ORDER as a further dimension of every row (the three orders rotate over the fillings of a row): after the register-then-load enforcer, a second enforcer over the same unchanged files is built with another history - '
+        'files read first (load_rules() or an early enforce()) and all defaults registered afterwards; files read, some of the defaults registered, an enforce, the rest registered; '
+        'or defaults registered (and possibly loaded / asked), Enforcer.clear(), the same defaults registered again and the enforcer taken back into use by a forced load before or after that registration - '
+        'and all its decisions are judged by the unchanged table: the order of registration and loading must not matter.')
 ASSUMPTIONS = ['role leaves evaluate as C01/C04 state',
                'an old-name override textually equal to the deprecated default is left unconstrained (statement)']
 LEVEL_TEXT = ('The table of the statement is finite in its skeleton and enumerated completely; the check strings are '
@@ -32,7 +36,9 @@ MIN = {'evaluations': 500, 'decisions': 10000, 'rows_old_override_governs': 50, 
        'rows_new_override_governs': 50, 'rows_alias': 50, 'phase2_cases': 100, 'rows_old_name_still_registered': 50, 'rows_old_override_in_both_layers': 20,
        'rows_old_override_lexical_variant': 60, 'phase2_old_override_lexical_variant': 10,
        'rows_predecessor_enforcer': 150, 'rows_predecessor_merged_then_new_defaults_enforced': 20,
-       'predecessor_newdef_top_or': 30}
+       'predecessor_newdef_top_or': 30,
+       'rows_order_load-register': 150, 'rows_order_load-partial-enforce-rest': 150, 'rows_order_clear-reuse': 150,
+       'rows_files_read_before_registration_old_override_governs': 100, 'rows_files_read_before_registration_or_merge': 100}
 ANCHORS = ['oslo_policy.policy:Enforcer._handle_deprecated_rule', 'oslo_policy.policy:Enforcer._record_file_rules',
            'oslo_policy.policy:Enforcer.load_rules', 'oslo_policy.policy:Enforcer.enforce']
 REQUIRED_ANCHORS = ['oslo_policy.policy:Enforcer.enforce', 'oslo_policy.policy:Enforcer.load_rules']
@@ -73,6 +79,9 @@ def skeleton():
 GOVERNS = ('arbitrary', 'variant')        # kinds of old-name override that are "an override under the old, renamed name"
 VARIANT_KINDS = ('parens', 'wrap', 'case', 'ws', 'random', 'true-spelling') * 2 + ('commute', 'double-not')
 SHAPES = ('or', 'and', 'not', 'leaf')
+# histories of ONE living enforcer other than "register every default, then load" (the table does not mention the order)
+ORDERS = ('load-register', 'load-partial-enforce-rest', 'clear-reuse')
+EARLY = ('load_rules', 'enforce-new-name', 'enforce-other-name')
 
 
 def _leaf(i):
@@ -127,7 +136,7 @@ def gen_shaped(rnd, shape):
     return ast, expr.spell(expr.to_tokens(ast, _leaf))
 
 
-def fill(rnd, row):
+def fill(rnd, row, j=None):
     case = dict(row)
     n = row['nshare']
     case['newdefs'] = [gen_expr(rnd) for _ in range(n)]
@@ -178,6 +187,15 @@ def fill(rnd, row):
             case['phase2']['old_ov'] = 'variant'
             case['phase2']['variant_kind'], case['phase2']['old_override'] = lexical_variant(
                 rnd, case['olddef'][0], case['olddef'][1])
+    # ---- drawn after ALL of the above: the order of registration and loading on a second enforcer over the same files ----
+    k = n + (1 if row['renamed'] and case.get('old_registered_def') else 0)        # number of defaults the service owns
+    kind = rnd.choice(ORDERS)
+    if j is not None:
+        kind = ORDERS[j % len(ORDERS)]            # every row meets every order within three consecutive fillings
+    first = sorted(rnd.sample(range(k), rnd.randint(1, k - 1))) if k > 1 else rnd.choice([[], [0]])
+    case['order'] = dict(kind=kind, early=rnd.choice(EARLY), roles=rnd.choice(SUBSETS), first=first,
+                         mid=rnd.randrange(n), first_life=rnd.choice(['load_rules', 'enforce', 'nothing']),
+                         reload_before_registering=rnd.random() < 0.4)
     return case
 
 
@@ -348,6 +366,100 @@ def check_case(ctx, case):
                                               'predecessor': dict(pre, same_decision_without_predecessor=clean) if pre else None,
                                               'warning_knobs': [case.get('suppress_default_change'), case.get('suppress_deprecation')]})
                     return
+        # ---- order: another enforcer over the SAME (unchanged) files meets registration and loading in another order;
+        #      the table does not mention the order, so its decisions are judged by the unchanged `effective` ----
+        od = case.get('order')
+        if od:
+            steps = []
+
+            def knobs(e):
+                if case.get('suppress_default_change'):
+                    e.suppress_default_change_warnings = True
+                if case.get('suppress_deprecation'):
+                    e.suppress_deprecation_warnings = True
+
+            def ask(e, nm, roles):
+                steps.append('enforce(%s, roles=%s)' % (nm, ','.join(roles)))
+                try:
+                    e.enforce(nm, {}, {'roles': list(roles)})
+                except Exception:
+                    pass                                   # history, not the subject
+
+            def register(e, idxs):
+                for x in idxs:
+                    steps.append('register_default(%s)' % defaults[x].name)
+                    e.register_default(defaults[x])
+
+            def early(e):
+                if od['early'] == 'load_rules':
+                    steps.append('load_rules()')
+                    e.load_rules()
+                else:
+                    ask(e, newnames[od['mid'] % n] if od['early'] == 'enforce-new-name' else 'svc:unrelated', od['roles'])
+
+            everything = list(range(len(defaults)))
+            oe = policy.Enforcer(tree.conf(enforce_new_defaults=case['flag']))
+            knobs(oe)
+            if od['kind'] == 'load-register':
+                early(oe)
+                register(oe, everything)
+            elif od['kind'] == 'load-partial-enforce-rest':
+                first = [x for x in od['first'] if x < len(defaults)]
+                early(oe)
+                register(oe, first)
+                ask(oe, newnames[od['mid'] % n], od['roles'])
+                register(oe, [x for x in everything if x not in first])
+            else:
+                # a first life (defaults registered, possibly loaded / asked), Enforcer.clear(), then the same defaults again;
+                # clear() leaves the enforcer detached from its files until a forced load, which is how it is taken back
+                # into use here - before or after the registration
+                register(oe, everything)
+                if od['first_life'] == 'load_rules':
+                    steps.append('load_rules()')
+                    oe.load_rules()
+                elif od['first_life'] == 'enforce':
+                    ask(oe, newnames[od['mid'] % n], od['roles'])
+                steps.append('clear()')
+                oe.clear()
+                knobs(oe)
+                if od['reload_before_registering']:
+                    steps.append('load_rules(force_reload=True)')
+                    oe.load_rules(force_reload=True)
+                    register(oe, everything)
+                else:
+                    register(oe, everything)
+                    steps.append('load_rules(force_reload=True)')
+                    oe.load_rules(force_reload=True)
+            ctx.count('rows_order_' + od['kind'])
+            files_read_first = od['kind'] != 'clear-reuse' or od['reload_before_registering']
+            if files_read_first and renamed and case['old_ov'] in GOVERNS and (n > 1 or not new_override):
+                ctx.count('rows_files_read_before_registration_old_override_governs')
+            if files_read_first and not case['flag'] and any(olddef[1] != d[1] for d in newdefs):
+                ctx.count('rows_files_read_before_registration_or_merge')
+            for i, nm in enumerate(newnames):
+                for roles in SUBSETS:
+                    truth = [r in roles for r in ROLES]
+                    want = effective(i, truth)
+                    try:
+                        got = bool(oe.enforce(nm, {}, {'roles': list(roles)}))
+                    except Exception as e:
+                        got = 'EXC:' + type(e).__name__
+                    ctx.count('decisions')
+                    if got != want:
+                        if isinstance(got, str):
+                            key = 'enforce-raises'
+                        elif od['kind'] == 'load-register':
+                            key = 'decision-differs-when-files-were-read-before-the-defaults-were-registered'
+                        elif od['kind'] == 'load-partial-enforce-rest':
+                            key = 'decision-differs-when-defaults-were-registered-in-two-batches-around-an-enforce'
+                        else:
+                            key = 'decision-differs-on-cleared-and-reused-enforcer'
+                        ctx.violation(key, case, {'policy': nm, 'roles': roles, 'expected': want, 'observed': got,
+                                                  'history_of_this_enforcer': steps,
+                                                  'register_everything_then_load': 'gave the expected decisions on the same files',
+                                                  'new_defaults': [d[1] for d in newdefs], 'old_default': olddef[1],
+                                                  'files': {'main': main, 'dir': dirf}, 'enforce_new_defaults': case['flag']})
+                        return
         # ---- phase 2: the operator edits the files; the same enforcer must now follow the table for the NEW files ----
         ph = case.get('phase2')
         if ph:
@@ -420,7 +532,7 @@ def run(ctx):
             if ctx.expired():
                 done = False
                 break
-            case = fill(ctx.sub_rnd('row', idx), row)
+            case = fill(ctx.sub_rnd('row', idx), row, j)
             check_case(ctx, case)
             if idx % 150 == 0:
                 ctx.sample({k: (v[1] if isinstance(v, tuple) else [x[1] for x in v] if k == 'newdefs' else v)
